@@ -151,6 +151,14 @@ func (o *OLVM) failedSandwich(c *Ctx, a, b *world.Account) []hist.TxSpec {
 	bz := OLVMTx(c, a, key, n+3, &to, big.NewInt(11), nil, 21000, "1000000000", ChainIDOf(c.W), fmt.Sprint(n+3))
 	bad := hist.TxSpec{Kind: "OLVM", Bytes: bz, Note: "nonce ahead by three (refused by the state transition)", Signers: []string{a.Addr.String()}}
 	bad.Meta = map[string]string{"from": a.Addr.String(), "nonce": fmt.Sprint(n + 3), "value": "11", "to": keys.Address(to.Bytes()).String(), "data": "", "expect": "fail"}
+	if c.R.Intn(2) == 0 {
+		// ... or one that validation refuses after it has looked at the sender: worth more than the sender holds
+		// (reaches a block only through a proposer that skips its mempool check)
+		v := new(big.Int).Add(BalanceOf(c.S, a.Addr, "OLT"), big.NewInt(1))
+		bz = OLVMTx(c, a, key, n, &to, v, nil, 21000, "1000000000", ChainIDOf(c.W), fmt.Sprint(n)+"x")
+		bad = hist.TxSpec{Kind: "OLVM", Bytes: bz, Note: "value above the balance (refused by validation after reading the sender)", Signers: []string{a.Addr.String()}, Force: true}
+		bad.Meta = map[string]string{"from": a.Addr.String(), "nonce": fmt.Sprint(n), "value": v.String(), "to": keys.Address(to.Bytes()).String(), "data": "", "expect": "fail"}
+	}
 	u := c.W.Users[0]
 	s1 := Build(c, "SEND", txb.Send(u.Addr, a.Addr, "OLT", "1000000000000000000000"), "native transfer to the account whose EVM transaction was just refused", u)
 	good := o.tx(c, a, &to, big.NewInt(4000+c.R.Int63n(1000)), nil, 21000, "plain transfer after a refused one and a native credit")
